@@ -133,6 +133,13 @@ func (opp *operationPack) Write(def Definition, repo repository.Repo, parentComm
 		})
 	}
 	if extraTree := opp.makeExtraTree(); len(extraTree) > 0 {
+		// A tree pointing to an object that doesn't exist is a broken repository for git (fsck, push, gc ...):
+		// the files have to be stored before they are attached.
+		for _, entry := range extraTree {
+			if _, err := repo.ReadData(entry.Hash); err != nil {
+				return "", fmt.Errorf("attached file %s: %w", entry.Hash, err)
+			}
+		}
 		extraTreeHash, err := repo.StoreTree(extraTree)
 		if err != nil {
 			return "", err
